@@ -103,6 +103,13 @@ CLAIMED = {
         "Trusted: reference codec, recording stubs, hook H5 for the moment a fragment or link-layer frame reaches the master's application layer, tokio paused clock. The due time of a poll is unknown (rules S4-S6 suspended for it) after a poll of its association ran whose request never reached the outstation (connection cut), until it runs again. Ties are avoided by only counting user requests submitted in an earlier millisecond.",
         "DESIGN.md section 6 C19",
     ),
+    "C18": (
+        "S-PAIR",
+        "deterministic simulation: seeded search over master clock values (weighted to the top of the 48-bit range), forward/backward one-way delays and outstation processing delays of 0..70 s (honest or dishonest), the three procedures, abandoned attempts, refused writes and a standing NEED_TIME, with the real master and the real outstation connected through the simulated network (scenario pair), and over interleaved unsolicited/stale/foreign replies, unexpected objects and missing replies against a scripted outstation (scenario scripted); oracle = clock error at the instant write_absolute_time is invoked, against the bound of the property",
+        "Seeded exploration (not exhaustive). Pair: the master's wall clock is base + virtual time; the two directions of the simulated connection have constant latencies f and b; the reply to DELAY_MEASURE is held for exactly the processing delay the outstation application reports (honest) or less (dishonest). At the virtual instant the recording application stub receives write_absolute_time(ts) the oracle computes |ts - master clock|: reported success requires an error <= f + 1 ms (LAN, direct write) or <= |f-b|/2 + 1 ms (non-LAN, honest), a time within 48 bits, and is forbidden when NEED_TIME still stands, the application refused the time or the reported delay exceeds the round trip; a first, undisturbed, honest procedure whose time fits must succeed. Scripted: the scripted outstation does the outstation arithmetic itself; success is forbidden when a step got no acceptable answer (silence, unexpected objects, IIN2 rejection) or NEED_TIME is sticky, and the same accuracy bounds apply with unsolicited responses, stale wrong-sequence and foreign replies interleaved at every step.",
+        "Trusted: tokio paused clock (both endpoints and the harness read the same virtual time, so one-way delays are exact), the recording application stubs, reference codec for the scripted side. Accuracy of a dishonest non-LAN run is not judged (only that it fails when the report exceeds the round trip); +-1 ms for millisecond truncation.",
+        "DESIGN.md section 6 C18",
+    ),
     "C04": (
         "S-OUT",
         "deterministic simulation: seeded search over request histories, virtual-time advances around the select timeout, retransmissions, reconnects/pre-emption and handler answers against the real outstation task; oracle = the property's predicate evaluated on the harness' own record of the history",
@@ -158,6 +165,7 @@ def main():
             {"name": "S-LINK", "path": "harness/props/c06.rs", "serves_properties": ["C06", "C07"], "kind_free_text": "real link reader/parser/formatter (C06) and real link Layer (C07 link scenario) over a simulated physical layer; seeded streams, faults and read plans"},
             {"name": "S-OUT", "path": "harness/sout.rs", "serves_properties": ["C03", "C04", "C05", "C07", "C11", "C12", "C13", "C14"], "kind_free_text": "real OutstationTask (session, database, event buffer, real transport/link) run by the real ServerTask over simulated connections; scripted master peer using the reference codec; recording stubs for user callbacks; user transactions injected at database lock points (H4)"},
             {"name": "S-MAST", "path": "harness/smast.rs", "serves_properties": ["C15", "C16", "C17", "C19"], "kind_free_text": "real MasterTask run by the real tcp ClientTask over a simulated network (H3) with latency and chunking; scripted outstation(s) built on the reference codec with a queue of reply policies; recording stubs for ReadHandler/AssociationHandler/AssociationInformation/Listener; user requests issued by simulated tasks through the public async API"},
+            {"name": "S-PAIR", "path": "harness/spair.rs", "serves_properties": ["C18"], "kind_free_text": "real MasterTask + tcp ClientTask and real OutstationTask + tcp ServerTask connected through the simulated network (H3): per-direction latency, read chunking on both sockets, one-shot holds, stalls and cuts; recording stubs for every user callback on both sides; database transactions and user requests issued by simulated tasks"},
             {"name": "S-TRANS", "path": "harness/props/c08.rs", "serves_properties": ["C08"], "kind_free_text": "two real transport writers -> frame-level fault stage -> real transport reader (link layer + assembler) over simulated phys"},
         ],
         "checks": checks,
